@@ -3,6 +3,7 @@
 ** Exhaustive preemption-bounded exploration of real Cello threads (lib/vf_sched.h).
 **
 ** Params: scn=<scenario>  bound=<preemptions>  max=<schedule cap>
+**   scn=dispatch kinds=<I|S|F|P|U per worker> iters=<rounds>     scn=handover del=<0|1>     scn=lazy
 **   scn=lockmix  lens=<a,b,..> ops=<alphabet over LTW> first=<first sections of thread 1>  |  prog=<P1+P2+..> (one program tuple)
 **   scn=tlshist  minlen=<n> len=<n> mincalls=<n> managed=<0|1>                               |  prog=<history, e.g. n0c0j0d0n0c0j0>
 ** Build:  hooks variant (-DCELLO_VERIF) + -Wl,--wrap=pthread_create,... (see checks/C13.py)
@@ -205,6 +206,135 @@ static var body_cont(var args) {
   return NULL;
 }
 
+/* the lazily created thread-local: get; on KeyError create the object and set it.  The main thread keeps an accumulator of
+** its own under the same key for the whole scenario; every worker must end up with an accumulator of its own */
+static var LAZYMAIN;
+static var body_lazy(var args) {
+  int me = my_id();
+  for (int i = 1; i <= 3; i++) {
+    volatile var acc = NULL;
+    var e = VF_CATCH(acc = get(current(Thread), $S("acc")));
+    if (e) {
+      if (e != KeyError) sch_fail("thread-local-storage-unreadable", "thread %d: get of its thread-local key raised %s", me, vf_exc_name(e));
+      else if (i != 1) sch_fail("thread-local-lost", "thread %d: the accumulator it created and set in step 1 is gone in step %d", me, i);
+      acc = new_raw(Int, $I(0));
+      set(current(Thread), $S("acc"), acc);
+    } else if (i == 1) {
+      if (acc == LAZYMAIN) sch_fail("thread-reads-main-threads-thread-local-value", "thread %d: get of a key it never set (mem says %s) returned the object the main thread keeps under that key in its own storage", me, mem(current(Thread), $S("acc")) ? "present" : "absent");
+      else sch_fail("thread-sees-thread-local-value-it-never-set", "thread %d: get of a key it never set returned an object", me);
+    }
+    assign(acc, $I(c_int(acc) + i * (me + 1)));
+    sch_point(SCH_SITE_USER);
+  }
+  int64_t fin = -1;
+  var e = VF_CATCH(fin = c_int(get(current(Thread), $S("acc"))));
+  if (e) sch_fail("thread-local-lost", "thread %d: reading its accumulator at the end raised %s", me, vf_exc_name(e));
+  if (mem(current(Thread), $S("acc"))) { var a = get(current(Thread), $S("acc")); rem(current(Thread), $S("acc")); if (a != LAZYMAIN) del_raw(a); }
+  result[me] = fin;
+  olog((char)('0' + me));
+  done_flag[me] = 1;
+  return NULL;
+}
+
+/* ---- mixed dispatch ------------------------------------------------------------------------
+** Every worker works on objects only it knows, all of one type of its own (Int, String, Float, a plain struct without
+** class instances, a user type with its own Cmp/Hash/Assign/Len/C_Int), and calls the type-dispatched operations in a
+** loop; every answer is compared with the value computed in C.  Whatever the other threads look up at the same time,
+** a call on an Int must be answered by Int's implementation. */
+struct DPair { int32_t a, b; };
+var DPair = Cello(DPair);
+struct DKey { int64_t k, pad; };
+var DKey;
+static int DKey_Cmp(var a, var b) { int64_t x = ((struct DKey*)a)->k, y = ((struct DKey*)cast(b, DKey))->k; return x < y ? 1 : x > y ? -1 : 0; }   /* descending */
+static uint64_t DKey_Hash(var a) { return (uint64_t)(((struct DKey*)a)->k * 7 + 3); }
+static void DKey_Assign(var a, var b) { ((struct DKey*)a)->k = ((struct DKey*)cast(b, DKey))->k; ((struct DKey*)a)->pad = 77; }
+static size_t DKey_Len(var a) { return (size_t)(((struct DKey*)a)->k & 7); }
+static int64_t DKey_C_Int(var a) { return ((struct DKey*)a)->k + 1000; }
+var DKey = Cello(DKey, Instance(Cmp, DKey_Cmp), Instance(Hash, DKey_Hash), Instance(Assign, DKey_Assign), Instance(Len, DKey_Len), Instance(C_Int, DKey_C_Int));
+
+static char disp_kinds[SCH_MAXT + 1] = "ISFPU";
+static int disp_iters = 2;
+static int64_t disp_result[SCH_MAXT]; static volatile int disp_done[SCH_MAXT];
+static int sgn(int64_t x) { return x < 0 ? -1 : x > 0 ? 1 : 0; }
+
+/* one worker's whole workload; `who` names the worker in messages; returns a digest of every answer it received */
+static void disp_rounds(int who, char kind, int iters, var st, volatile int64_t* dgp, volatile int* rdp) {
+  const char* kn = kind == 'I' ? "Int" : kind == 'S' ? "String" : kind == 'F' ? "Float" : kind == 'P' ? "plain struct" : "user type with its own Cmp";
+#define DCHK(what, got, want) do { int64_t g_ = (int64_t)(got), w_ = (int64_t)(want); *dgp = *dgp * 31 + g_; \
+    if (g_ != w_) sch_fail("dispatched-call-answered-for-another-type", "worker %d (%s values, round %d): %s gave %" PRId64 ", its own type's implementation gives %" PRId64, who, kn, (int)*rdp, what, g_, w_); } while (0)
+  static const int64_t iv[] = { 0, 1, 256, -1, 65536, 255, (int64_t)1 << 40, -256 };
+  static const char* sv[] = { "", "a", "ab", "abc", "b", "a\xc3\xa9", "\xff", "ab\x80z" };
+  static const double fv[] = { 0.0, 1.5, -2.25, 256.0, 1.0, 1e300, -1.0, 0.5 };
+  static const int32_t pv[][2] = { { 0, 0 }, { 1, 0 }, { 256, 0 }, { 0, 1 }, { -1, 5 }, { 1, 256 }, { 65536, 2 }, { 255, 255 } };
+  {
+    for (int rd = 0; rd < iters; rd++) {
+      int i = rd % 8, j = (rd / 8 + rd * 3 + 1) % 8;
+      *rdp = rd;
+      if (kind == 'I') {
+        var x = $I(iv[i]), y = $I(iv[j]), t = $I(-7);
+        DCHK("sign of cmp", sgn(cmp(x, y)), sgn(iv[i] < iv[j] ? -1 : iv[i] > iv[j]));
+        DCHK("eq", eq(x, y), iv[i] == iv[j]); DCHK("lt", lt(x, y), iv[i] < iv[j]); DCHK("ge", ge(x, y), iv[i] >= iv[j]);
+        DCHK("hash", hash(x), (uint64_t)iv[i]); DCHK("c_int", c_int(y), iv[j]);
+        assign(t, y); DCHK("c_int after assign", c_int(t), iv[j]);
+        DCHK("cast", cast(x, Int) == x, 1);
+        if (rd % 4 == 0) { var c = copy(x); DCHK("c_int of copy", c_int(c), iv[i]); DCHK("eq with copy", eq(c, x), 1); del(c); }
+      } else if (kind == 'S') {
+        var x = $S((char*)sv[i]), y = $S((char*)sv[j]);
+        DCHK("sign of cmp", sgn(cmp(x, y)), sgn(strcmp(sv[i], sv[j])));
+        DCHK("eq", eq(x, y), strcmp(sv[i], sv[j]) == 0); DCHK("gt", gt(x, y), strcmp(sv[i], sv[j]) > 0); DCHK("le", le(x, y), strcmp(sv[i], sv[j]) <= 0);
+        DCHK("len", len(x), strlen(sv[i])); DCHK("hash", hash(y), hash_data((void*)sv[j], strlen(sv[j])));
+        assign(st, y); DCHK("c_str after assign", strcmp(c_str(st), sv[j]), 0); DCHK("len after assign", len(st), strlen(sv[j]));
+        DCHK("cast", cast(y, String) == y, 1);
+        if (rd % 4 == 0) { var c = copy(x); DCHK("c_str of copy", strcmp(c_str(c), sv[i]), 0); DCHK("eq with copy", eq(c, x), 1); del(c); }
+      } else if (kind == 'F') {
+        var x = $F(fv[i]), y = $F(fv[j]), t = $F(9.0);
+        union { double d; uint64_t u; } bits; bits.d = fv[i];
+        DCHK("sign of cmp", sgn(cmp(x, y)), fv[i] < fv[j] ? -1 : fv[i] > fv[j]);
+        DCHK("eq", eq(x, y), fv[i] == fv[j]); DCHK("lt", lt(x, y), fv[i] < fv[j]);
+        DCHK("hash", hash(x), bits.u); DCHK("c_float", c_float(y) == fv[j], 1);
+        assign(t, y); DCHK("c_float after assign", c_float(t) == fv[j], 1);
+        DCHK("cast", cast(x, Float) == x, 1);
+        if (rd % 4 == 0) { var c = copy(y); DCHK("c_float of copy", c_float(c) == fv[j], 1); del(c); }
+      } else if (kind == 'P') {
+        struct DPair* x = $(DPair, pv[i][0], pv[i][1]); struct DPair* y = $(DPair, pv[j][0], pv[j][1]); struct DPair* t = $(DPair, -3, -3);
+        DCHK("sign of cmp", sgn(cmp(x, y)), sgn(memcmp(pv[i], pv[j], sizeof pv[0])));
+        DCHK("eq", eq(x, y), memcmp(pv[i], pv[j], sizeof pv[0]) == 0); DCHK("neq", neq(x, y), memcmp(pv[i], pv[j], sizeof pv[0]) != 0);
+        DCHK("hash", hash(x), hash_data((void*)pv[i], sizeof pv[0]));
+        assign(t, y); DCHK("first field after assign", t->a, pv[j][0]); DCHK("second field after assign", t->b, pv[j][1]);
+        DCHK("cast", cast(x, DPair) == (var)x, 1);
+        if (rd % 4 == 0) { struct DPair* c = copy(x); DCHK("fields of copy", c->a == pv[i][0] && c->b == pv[i][1], 1); del(c); }
+      } else {
+        struct DKey* x = $(DKey, iv[i], 1); struct DKey* y = $(DKey, iv[j], 2); struct DKey* t = $(DKey, -5, 3);
+        DCHK("sign of cmp", sgn(cmp(x, y)), sgn(iv[i] < iv[j] ? 1 : iv[i] > iv[j] ? -1 : 0));
+        DCHK("eq", eq(x, y), iv[i] == iv[j]); DCHK("lt", lt(x, y), iv[i] > iv[j]);
+        DCHK("hash", hash(x), (uint64_t)(iv[i] * 7 + 3)); DCHK("len", len(y), (size_t)(iv[j] & 7)); DCHK("c_int", c_int(x), iv[i] + 1000);
+        assign(t, y); DCHK("key after assign", t->k, iv[j]); DCHK("marker left by its own Assign", t->pad, 77);
+        DCHK("cast", cast(y, DKey) == (var)y, 1);
+        if (rd % 4 == 0) { struct DKey* c = copy(x); DCHK("key of copy", c->k, iv[i]); DCHK("marker left by its own Assign in copy", c->pad, 77); del(c); }
+      }
+    }
+  }
+#undef DCHK
+}
+static int64_t disp_work(int who, char kind, int iters) {
+  volatile int64_t dg = 0; volatile int rd = 0;
+  const char* kn = kind == 'I' ? "Int" : kind == 'S' ? "String" : kind == 'F' ? "Float" : kind == 'P' ? "plain struct" : "user type with its own Cmp";
+  var st = kind == 'S' ? new_raw(String, $S("init")) : NULL;
+  var e = VF_CATCH(disp_rounds(who, kind, iters, st, &dg, &rd));
+  if (e) sch_fail("dispatched-call-raised", "worker %d (%s values, round %d): an operation on its own objects raised %s", who, kn, (int)rd, vf_exc_name(e));
+  if (st) del_raw(st);
+  return dg;
+}
+
+static var body_dispatch(var args) {
+  my_id();
+  int idx = (int)c_int(get(args, $I(0)));
+  disp_result[idx] = disp_work(idx + 1, disp_kinds[idx], disp_iters);
+  olog((char)('1' + idx));
+  disp_done[idx] = 1;
+  return NULL;
+}
+
 /* ---- scenarios -------------------------------------------------------------------------- */
 
 static int64_t solo_alloc[SCH_MAXT], solo_exc[SCH_MAXT], solo_tls[SCH_MAXT], solo_cont[SCH_MAXT];
@@ -224,6 +354,7 @@ static void check_teardown(int nt) {
 static void scn_workers(void) {
   var th[SCH_MAXT];
   var fobj = $(Function, the_body);   /* one object, read-only once the threads run */
+  if (the_body == body_lazy) set(current(Thread), $S("acc"), LAZYMAIN);   /* the main thread's own value under the key the workers use */
   for (int i = 0; i < nthreads; i++) { th[i] = new_raw(Thread, fobj); if (the_body == body_args) call(th[i], ARG1, ARG2); else call(th[i]); }
   for (int i = 0; i < nthreads; i++) {
     join(th[i]);
@@ -238,6 +369,11 @@ static void scn_workers(void) {
     dg = dg * 1000003 + (uint64_t)result[i + 1];
   }
   check_teardown(nthreads);
+  if (the_body == body_lazy) {
+    var e = VF_CATCH({ if (get(current(Thread), $S("acc")) != LAZYMAIN || c_int(LAZYMAIN) != 5000) sch_fail("main-threads-thread-local-value-changed-by-workers", "main thread: the accumulator under its own key holds %" PRId64 " after the workers ran, it had set it to 5000 and never touched it", c_int(LAZYMAIN)); });
+    if (e) sch_fail("thread-local-lost", "main thread: reading its own key after the workers ran raised %s", vf_exc_name(e));
+    rem(current(Thread), $S("acc"));
+  }
   for (int i = 0; i < nthreads; i++) del_raw(th[i]);
   sch->digest = dg;
   snprintf(sch->obs, sizeof sch->obs, "%s x%d ok, finish order %s", the_body_name, nthreads, order_log);
@@ -393,6 +529,84 @@ static void scn_join(void) {
   snprintf(sch->obs, sizeof sch->obs, "join ok");
 }
 
+/* mixed dispatch: worker i works on values of kind disp_kinds[i]; the reference digests come from the same workload run
+** in the explorer process before any thread exists */
+static int64_t disp_solo[SCH_MAXT];
+static var MIXIDX[SCH_MAXT];             /* static argument objects: the worker's index */
+static void scn_dispatch(void) {
+  var th[SCH_MAXT];
+  var fobj = $(Function, body_dispatch);
+  for (int i = 0; i < nthreads; i++) { th[i] = new_raw(Thread, fobj); call(th[i], MIXIDX[i]); }
+  for (int i = 0; i < nthreads; i++) join(th[i]);
+  uint64_t dg = 0;
+  for (int i = 0; i < nthreads; i++) {
+    if (!disp_done[i]) sch_fail("join-returned-before-thread-finished", "all threads joined but worker %d has not finished its function", i + 1);
+    else if (disp_result[i] != disp_solo[i]) sch_fail("thread-result-differs-from-solo-run", "dispatch worker %d (kind %c) computed %" PRId64 ", alone it computes %" PRId64, i + 1, disp_kinds[i], disp_result[i], disp_solo[i]);
+    dg = dg * 1000003 + (uint64_t)disp_result[i];
+  }
+  for (int i = 0; i < nthreads; i++) del_raw(th[i]);
+  sch->digest = dg;
+  snprintf(sch->obs, sizeof sch->obs, "dispatch %.*s x%d rounds ok, finish order %s", nthreads, disp_kinds, disp_iters, order_log);
+}
+
+/* hand-over: the main thread makes objects (registered with its collector, held on its stack), a child uses them and -
+** hand_del=1 - calls del() on every other one; the main thread allocates (and collects) meanwhile, joins, reads all of
+** them and deletes them itself.  An object belongs to the collector of the thread that made it: whatever the child does,
+** it is finalised once, by the main thread, and not before the main thread lets go of it */
+#define HAND_N 6
+static var hand_obj[HAND_N]; static int hand_del = 1;
+static var body_handover(var args) {
+  int me = my_id();
+  int64_t d = 0;
+  for (int k = 0; k < HAND_N; k++) {
+    struct TObj* o = hand_obj[k];
+    d = d * 31 + o->val;
+    if (k == 2) { var mine = new(TObj, $I(9000 + k)); (void)mine; }   /* its own collector has objects of its own, too */
+    if (hand_del && k % 2 == 0) {
+      var e = VF_CATCH(del(o));
+      if (e) sch_fail("del-of-foreign-object-raised", "child: del() of an object made by the main thread raised %s", vf_exc_name(e));
+    }
+  }
+  for (int k = 0; k < HAND_N; k++) d = d * 31 + ((struct TObj*)hand_obj[k])->val;
+  result[me] = d;
+  olog((char)('0' + me));
+  done_flag[me] = 1;
+  return NULL;
+}
+static void scn_handover(void) {
+  var keep[HAND_N];
+  int64_t want = 0;
+  for (int k = 0; k < HAND_N; k++) { keep[k] = new(TObj, $I(500 + k)); hand_obj[k] = keep[k]; }
+  for (int k = 0; k < HAND_N; k++) want = want * 31 + 500 + k;
+  for (int k = 0; k < HAND_N; k++) want = want * 31 + 500 + k;
+  var th = new_raw(Thread, $(Function, body_handover));
+  call(th);
+  for (int i = 0; i < 10; i++) { var o = new(TObj, $I(i)); (void)o; }     /* the owner's collector works meanwhile */
+  join(th);
+  if (!done_flag[1]) sch_fail("join-returned-before-thread-finished", "join returned before the thread's function finished");
+  else if (result[1] != want) sch_fail("thread-result-differs-from-solo-run", "the child read %" PRId64 " from the objects handed to it, their contents give %" PRId64, result[1], want);
+  for (int k = 0; k < HAND_N; k++) {
+    struct TObj* o = keep[k];
+    if (o->serial <= 0 || o->serial >= 4096 || tobj_state[o->serial] != 1 || o->owner != 0 || o->val != 500 + k) {
+      sch_fail("object-finalised-while-its-owner-still-holds-it", "main thread: object %d, made by it and still on its stack, was finalised or damaged while the child %s it", k, hand_del && k % 2 == 0 ? "called del() on" : "read");
+      continue;
+    }
+    var e = VF_CATCH({ if (type_of(o) != TObj) sch_fail("object-finalised-while-its-owner-still-holds-it", "main thread: object %d is no longer a TObj", k); });
+    if (e) sch_fail("object-finalised-while-its-owner-still-holds-it", "main thread: looking at object %d after join raised %s", k, vf_exc_name(e));
+  }
+  int fin_before = tobj_fin[0];
+  if (!sch->failed) for (int k = 0; k < HAND_N; k++) {
+    int64_t serial = ((struct TObj*)keep[k])->serial;
+    del(keep[k]);
+    if (tobj_state[serial] != 2) sch_fail("owners-del-does-not-finalise", "main thread: del() of its own object %d did not finalise it (the child %s it before)", k, hand_del && k % 2 == 0 ? "called del() on" : "only read");
+  }
+  if (!sch->failed && tobj_fin[0] - fin_before != HAND_N) sch_fail("object-finalised-twice", "%d finalisations for the %d objects the main thread deleted", tobj_fin[0] - fin_before, HAND_N);
+  check_teardown(1);
+  del_raw(th);
+  sch->digest = (uint64_t)result[1];
+  snprintf(sch->obs, sizeof sch->obs, "handover ok, main made %d finalised %d", tobj_made[0], tobj_fin[0]);
+}
+
 /* ---- mixed entry kinds on one Mutex ("lockmix") ------------------------------------------
 ** Every worker runs its own short program over L (lock, section, unlock), T (one trylock; on success section, unlock;
 ** on failure it goes on without entering) and W (`with (x in m) { section }`).  Whatever the mix: no thread is inside a
@@ -400,7 +614,6 @@ static void scn_join(void) {
 ** section) and its exit releases exactly the hold its entry took (the sections that follow still exclude each other and
 ** the Mutex is free once every section has ended); every L and W section runs exactly once. */
 static char mix_prog[SCH_MAXT][8];       /* program of worker i (0-based) */
-static var MIXIDX[SCH_MAXT];             /* static argument objects: the worker's index */
 static volatile int mix_holder, mix_holder_kind;   /* harness view: id+1 of the thread between its entry and its release */
 static volatile int mix_expected, mix_try_failed;
 
@@ -489,6 +702,15 @@ static var body_hist(var args) {
     else if (present && got != hist_model[s][k])
       sch_fail("thread-local-value-diverted", "run %d (Thread object #%d): key \"%s\" was left by run %d of the same object, but holds another value now", r, hist_gen[s], hist_key[k], hist_model_run[s][k]);
     if (!present) { hist_model[s][k] = NULL; hist_model_run[s][k] = 0; }
+    if (!present) {
+      /* get() of a key this thread does not hold is a KeyError - also, and above all, when the main thread holds a value
+      ** under the same name ("ka") in its own storage: the lazily-created thread-local idiom relies on it */
+      volatile var leaked = NULL;
+      var e2 = VF_CATCH(leaked = get(self, $S((char*)hist_key[k])));
+      if (!e2) sch_fail(leaked == HISTMAIN ? "thread-reads-main-threads-thread-local-value" : "thread-local-get-answers-for-absent-key",
+        "run %d (Thread object #%d): mem() says key \"%s\" is not in its own storage, yet get() returns %s", r, hist_gen[s], hist_key[k], leaked == HISTMAIN ? "the object the main thread keeps under that name in the main thread's storage" : "an object");
+      else if (e2 != KeyError) sch_fail("thread-local-storage-unreadable", "run %d: get() of the absent key \"%s\" raised %s, not KeyError", r, hist_key[k], vf_exc_name(e2));
+    }
   }
   /* its own values: key r%2 always, the other one too in every third run */
   for (int k = 0; k < HIST_KEYS; k++) {
@@ -621,12 +843,16 @@ int64_t seq_ref(int id);
 /* ---- free-running pass under ThreadSanitizer ---------------------------------------------
 ** The same scenario bodies, real concurrency, no scheduler: a data race report whose stacks lie
 ** in the per-thread singletons (GC.c, Exception.c) or the thread-local table (Table.c, Thread.c)
-** is a violation of thread isolation; races in the type cache (idempotent fills) are suppressed. */
+** is a violation of thread isolation; races in the type cache (idempotent fills of a type object's own words) are
+** suppressed (lib/tsan.supp) or, for the instances that run without the suppression file, recognised by the memory
+** they are about.  An execution that ends before the scenario does (signal, fault, uncaught exception) is a violation. */
 static void run_free(struct sch_explorer* ex, int runs) {
   vf.phase = ex->name;
   char path[256];
   for (int k = 0; k < runs; k++) {
-    snprintf(path, sizeof path, "tsan-%s%s%s-%d.log", vf_param("scn", "x"), vf_param("prog", NULL) ? "-" : "", vf_param("prog", ""), k);
+    /* one log per execution; instances of one scenario that differ in a parameter run side by side in one directory */
+    snprintf(path, sizeof path, "tsan-%s%s%s%s%s%s-t%d-%d.log", vf_param("scn", "x"), vf_param("prog", NULL) ? "-" : "", vf_param("prog", ""), vf_param("kinds", NULL) ? "-" : "", vf_param("kinds", ""),
+      managed_thread ? "-managed" : "", nthreads, k);
     for (char* c = path; *c; c++) if (*c == '/' || *c == '+') *c = '_';
     fflush(NULL);
     pid_t pid = fork();
@@ -635,8 +861,11 @@ static void run_free(struct sch_explorer* ex, int runs) {
       dup2(fd, 2);
       free_mode = 1; free_mode_flag = 1; sch_me = 0;
       memset(sch, 0, sizeof *sch);
+      /* a fault in this execution belongs to it: the explorer's handlers (which write the result file) are not inherited */
+      signal(SIGSEGV, SIG_DFL); signal(SIGFPE, SIG_DFL); signal(SIGBUS, SIG_DFL); signal(SIGABRT, SIG_DFL); signal(SIGILL, SIG_DFL); signal(SIGALRM, SIG_DFL);
       alarm(60);
       ex->scenario();
+      sch->completed = 1;
       fflush(NULL);
       _exit(sch->failed ? 7 : 0);
     }
@@ -644,13 +873,12 @@ static void run_free(struct sch_explorer* ex, int runs) {
     vf.executions++; vf.transitions++;
     vf_set_cur("free-running %s run %d", ex->name, k);
     if (sch->failed) { char lab[200]; snprintf(lab, sizeof lab, "free/%s/%s", ex->name, sch->label); vf_violation(lab, NULL, "%s", sch->detail); }
-    if (WIFSIGNALED(st)) { char lab[200]; snprintf(lab, sizeof lab, "free/%s/crash-signal-%d", ex->name, WTERMSIG(st)); vf_violation(lab, NULL, "free-running execution died with signal %d", WTERMSIG(st)); }
     /* parse the sanitizer log: one violation per distinct pair of racing functions in isolated modules */
+    int d23_seen = 0;
     FILE* f = fopen(path, "r");
-    if (!f) continue;
-    char line[1024]; int in_report = 0, frame = 0; char f1[96] = "", f2[96] = ""; int stack = 0, relevant = 0;
-    while (fgets(line, sizeof line, f)) {
-      if (strstr(line, "WARNING: ThreadSanitizer: data race")) { in_report = 1; stack = 0; f1[0] = f2[0] = 0; relevant = 0; continue; }
+    char line[1024]; int in_report = 0, frame = 0; char f1[96] = "", f2[96] = "", loc[96] = ""; int stack = 0, relevant = 0, in_type_c = 0;
+    while (f && fgets(line, sizeof line, f)) {
+      if (strstr(line, "WARNING: ThreadSanitizer: data race")) { in_report = 1; stack = 0; f1[0] = f2[0] = loc[0] = 0; relevant = 0; in_type_c = 0; continue; }
       if (!in_report) continue;
       if (strstr(line, "Write of size") || strstr(line, "Read of size") || strstr(line, "Previous write") || strstr(line, "Previous read") || strstr(line, "Previous atomic")) { stack++; frame = 0; continue; }
       char fn[96], file[256];
@@ -659,15 +887,25 @@ static void run_free(struct sch_explorer* ex, int runs) {
         int is_src = strstr(file, "/src/") != NULL || strstr(file, "/harness/") != NULL || strstr(file, "/lib/vf") != NULL;
         if (is_src && !(stack == 1 ? f1[0] : f2[0])) {
           snprintf(stack == 1 ? f1 : f2, 96, "%s", fn);
-          /* any unsynchronised access inside the library (the idempotent type-cache fills are suppressed in lib/tsan.supp)
-          ** or inside the Mutex-guarded section of the harness */
+          /* any unsynchronised access inside the library or inside the Mutex-guarded section of the harness; the accesses of
+          ** src/Type.c are judged by the memory they are about, below (most instances also suppress them in lib/tsan.supp) */
           if ((strstr(file, "/src/") && !strstr(file, "/src/Type.c")) || strstr(fn, "critical")) relevant = 1;
+          if (strstr(file, "/src/Type.c")) in_type_c = 1;
         }
         frame++;
       }
+      if (sscanf(line, " Location is global '%95[^']'", loc) == 1) continue;
       if (strstr(line, "SUMMARY: ThreadSanitizer")) {
         in_report = 0;
-        if (relevant) {
+        /* the type lookup fills words of the type object itself lazily, every thread with the same value (cache entries, the
+        ** class memo of an entry, the header's type word); type objects are anonymous compound literals (or heap blocks).
+        ** A race of the lookup code on any other global - a named file- or function-level variable - is state that one
+        ** thread's lookup leaves for another thread's lookup */
+        int shared_lookup_state = !relevant && in_type_c && loc[0] && strncmp(loc, ".compoundliteral", 16) != 0 && strncmp(loc, "__compound_literal", 18) != 0;
+        if (shared_lookup_state) {
+          char lab[300]; snprintf(lab, sizeof lab, "tsan/%s/race/type-lookup-state-shared-between-threads/%s", vf_param("scn", "x"), loc);
+          vf_violation(lab, NULL, "ThreadSanitizer: data race between %s and %s on the global '%s': the type lookup of one thread leaves state the lookup of another thread uses (log %s)", f1, f2, loc, path);
+        } else if (relevant) {
           /* D23 shape: a collector marking (Table_Mark and what it calls) races with a mutation of the same table by its owner thread */
           static const char* markers[] = { "Table_Mark", "Table_Key_Hash", "Table_Key", "Table_Val", "Table_Step", "GC_Recurse", "GC_Mark_Item", "GC_Mark_And_Recurse", "Thread_Mark", NULL };
           static const char* mutators[] = { "Table_Set_Move", "Table_Set", "Table_Rehash", "Table_Rem", "Table_Clear", "Table_Resize_More", "Table_Resize_Less", "Table_Swapspace_Key", NULL };
@@ -675,13 +913,28 @@ static void run_free(struct sch_explorer* ex, int runs) {
           for (int q = 0; markers[q]; q++) { if (!strcmp(f1, markers[q])) m1 = 1; if (!strcmp(f2, markers[q])) m2 = 1; }
           for (int q = 0; mutators[q]; q++) { if (!strcmp(f1, mutators[q])) u1 = 1; if (!strcmp(f2, mutators[q])) u2 = 1; }
           char lab[300];
-          if ((m1 || u1) && (m2 || u2) && (m1 || m2)) snprintf(lab, sizeof lab, "tsan/%s/race/collector-marks-table-while-owner-mutates-it", vf_param("scn", "x"));
+          if ((m1 || u1) && (m2 || u2) && (m1 || m2)) { d23_seen = 1; snprintf(lab, sizeof lab, "tsan/%s/race/collector-marks-table-while-owner-mutates-it", vf_param("scn", "x")); }
           else snprintf(lab, sizeof lab, "tsan/%s/race/%s~%s", vf_param("scn", "x"), f1[0] ? f1 : "-", f2[0] ? f2 : "-");
           vf_violation(lab, NULL, "ThreadSanitizer: data race between %s and %s in per-thread state (log %s)", f1, f2, path);
         } else vf.evaluations++;
       }
     }
-    fclose(f);
+    if (f) fclose(f);
+    /* an execution that did not reach the end of the scenario: killed by a signal, or - the sanitizer run-time turns a fault,
+    ** and the library an uncaught exception, into an ordinary exit - gone without the completion mark.  When the log of this
+    ** very execution shows a collector walking a table its owner was mutating, the early end is that walk reading a
+    ** half-written table (seen: "bad magic number" raised in the marking thread) and is reported with the race */
+    if (WIFSIGNALED(st) || (!sch->failed && !sch->completed)) {
+      char lab[300], how[96];
+      if (WIFSIGNALED(st)) snprintf(how, sizeof how, "died with signal %d", WTERMSIG(st)); else snprintf(how, sizeof how, "left the process (exit status %d)", WIFEXITED(st) ? WEXITSTATUS(st) : -1);
+      if (d23_seen) {
+        snprintf(lab, sizeof lab, "tsan/%s/race/collector-marks-table-while-owner-mutates-it", vf_param("scn", "x"));
+        vf_violation(lab, NULL, "free-running execution %s before the scenario reached its end, after a collector walked a table while its owner thread was mutating it (log %s)", how, path);
+      } else {
+        if (WIFSIGNALED(st)) snprintf(lab, sizeof lab, "free/%s/crash-signal-%d", ex->name, WTERMSIG(st)); else snprintf(lab, sizeof lab, "free/%s/execution-ended-before-the-scenario-did", ex->name);
+        vf_violation(lab, NULL, "free-running execution %s before the scenario reached its end: a fault or an uncaught exception (log %s)", how, path);
+      }
+    }
   }
   vf.states = 1;
   vf_sample("free-running %s x%d under ThreadSanitizer", ex->name, runs);
@@ -726,12 +979,28 @@ int main(int argc, char** argv) {
     ex.scenario = scn_abandon; ex.site_mask = 0; abandon_tries = (int)vf_param_i("tries", 3);
   } else if (strcmp(scn, "join") == 0) {
     ex.scenario = scn_join; ex.site_mask = thr_sites;
+  } else if (strcmp(scn, "handover") == 0) {
+    ex.scenario = scn_handover; ex.site_mask = gc_sites | thr_sites; hand_del = (int)vf_param_i("del", 1);
+  } else if (strcmp(scn, "dispatch") == 0) {
+    /* kinds=<one letter per worker over I S F P U>; iters=<rounds per worker>; scheduling points: every read / fill of a type's
+    ** cache entries, the class memo of Type_Scan and the lazy header fill of type_of */
+    snprintf(disp_kinds, sizeof disp_kinds, "%s", vf_param("kinds", "ISFPU"));
+    if ((int)strlen(disp_kinds) < nthreads || strspn(disp_kinds, "ISFPU") != strlen(disp_kinds)) { fprintf(stderr, "h_thread: kinds=%s does not name a kind (I S F P U) for each of %d workers\n", disp_kinds, nthreads); _exit(2); }
+    disp_iters = (int)vf_param_i("iters", 2);
+    for (int i = 0; i < SCH_MAXT; i++) MIXIDX[i] = new_raw(Int, $I(i));
+    ex.scenario = scn_dispatch;
+    ex.site_mask = M(CELLO_VP_TYPE_CACHE_READ) | M(CELLO_VP_TYPE_CACHE_WRITE) | M(CELLO_VP_TYPE_SCAN_MEMO) | M(CELLO_VP_TYPE_OF_LAZY);
+    for (int i = 0; i < nthreads; i++) {
+      disp_solo[i] = disp_work(i + 1, disp_kinds[i], disp_iters);
+      if (sch->failed) { char lab[200]; snprintf(lab, sizeof lab, "%s/single-threaded/%s", name, sch->label); vf_violation(lab, NULL, "with no other thread in the process: %s", sch->detail); vf_finish(); }
+    }
   } else {
     int parent = strncmp(scn, "parent+", 7) == 0;
     const char* b = parent ? scn + 7 : scn;
     if (strcmp(b, "alloc") == 0) { the_body = body_alloc; the_body_name = "alloc"; ex.site_mask = gc_sites | thr_sites; }
     else if (strcmp(b, "exc") == 0) { the_body = body_exc; the_body_name = "exc"; ex.site_mask = exc_sites | (parent ? gc_sites : 0); }
     else if (strcmp(b, "tls") == 0) { the_body = body_tls; the_body_name = "tls"; ex.site_mask = tab_sites | (parent ? gc_sites : 0); }
+    else if (strcmp(b, "lazy") == 0) { the_body = body_lazy; the_body_name = "lazy"; ex.site_mask = tab_sites; LAZYMAIN = new_raw(Int, $I(5000)); }
     else if (strcmp(b, "cont") == 0) { the_body = body_cont; the_body_name = "cont"; ex.site_mask = tab_sites | (parent ? gc_sites : 0); }
     else if (strcmp(b, "args") == 0) { the_body = body_args; the_body_name = "args"; ex.site_mask = gc_sites | thr_sites; seed_tls = (int)vf_param_i("seed", 0); heap_args = (int)vf_param_i("heapargs", 0); }
     else if (strcmp(b, "fmt") == 0) { the_body = body_fmt; the_body_name = "fmt"; ex.site_mask = M(CELLO_VP_TYPE_CACHE_READ) | exc_sites; }
